@@ -49,6 +49,9 @@ type Node struct {
 	down    bool
 }
 
+// IsDown tells whether Down was called.
+func (n *Node) IsDown() bool { return n.down }
+
 // Down stops the node's inter-node service (the node is "down" for its peers).
 func (n *Node) Down() {
 	if !n.down {
